@@ -53,7 +53,7 @@ def get_concurrence_pure(psi:np.ndarray):
             tmp0 = psi.conj().T @ psi
         tmp1 = tmp0.reshape(-1)
         tmp2 = np.vdot(tmp1, tmp1).real #Frobenius norm, np.trace(tmp1 @ tmp1)
-        ret = np.sqrt(2*(1-tmp2))
+        ret = np.sqrt(2*max(0,1-tmp2)) #tr(rhoA^2) could exceed 1 by rounding error for product states
     return ret
 
 
